@@ -35,6 +35,11 @@ class VMModel:
             self.problems.append("no function calling `dyn Opcode::execute` inside a loop (the VM main loop)")
         if self.advance is None:
             self.problems.append("no function calling ExecutionThread::step (the VM advance function)")
+        else:
+            # the advance function is read together with the private methods of the VM it calls (retiring a thread, looking
+            # the current thread up): a step of it that was moved into such a method is still a step of it
+            self.advance_own = self.advance
+            self.advance = F.inline_module_helpers(fx, self.advance, max_nodes=400, methods=True)
         # error-buffer wrappers: functions whose body is just `self.errors.add(param)`
         self.error_wrappers = set()
         for b in fx.fn_bodies():
